@@ -7,8 +7,13 @@ package stick
 
 import (
 	"fmt"
+	"math"
 	"testing"
 )
+
+type aInner struct{ X int }
+type aOuter struct{ *aInner }
+type aKey struct{ A interface{} }
 
 type aS struct {
 	Pub  int
@@ -28,8 +33,9 @@ func TestStickvcReplayAttr(t *testing.T) {
 	var nilSl *[]int
 	var nilM map[string]int
 	containers := []Value{nil, map[string]int{"a": 1}, map[int]string{1: "x"}, map[float64]int{1: 1}, map[interface{}]int{"k": 1}, nilM,
-		[]int{1, 2, 3}, []int{}, [2]string{"a", "b"}, &[]int{7}, nilSl, aS{Pub: 1, priv: 2}, &aS{Pub: 3}, nilS, "str", 3, &ip, []Value{nil, 1}}
-	keys := []Value{nil, "a", "Pub", "priv", "F", "M0", "M1", "PM", "V", "P", 0, 1, 1.0, -1, 2.5, 99, true, "0", []int{1}}
+		[]int{1, 2, 3}, []int{}, [2]string{"a", "b"}, &[]int{7}, nilSl, aS{Pub: 1, priv: 2}, &aS{Pub: 3}, nilS, "str", 3, &ip, []Value{nil, 1},
+		map[float64]string{math.NaN(): "x", 1: "y"}, aOuter{}, &aOuter{}, aOuter{&aInner{7}}, map[interface{}]int{aKey{1}: 1}}
+	keys := []Value{nil, "a", "Pub", "priv", "F", "M0", "M1", "PM", "V", "P", 0, 1, 1.0, -1, 2.5, 99, true, "0", []int{1}, "X", []Value{1, 2}, map[string]Value{"a": 1}, aKey{1}, aKey{[]int{1}}, math.NaN()}
 	argls := [][]Value{{}, {"s"}, {1}, {nil}, {"a", "b"}, {1.5}}
 	for _, c := range containers {
 		for _, k := range keys {
